@@ -226,8 +226,27 @@ func dbApply(pdb **DB, dir string, opts *Options, r *refMap, op, k int, v []byte
 	case 3:
 		vAssert(db.Sync() == nil, tag+".sync.err")
 	case 4:
+		// segment metadata (record counts, dead bytes, sealed flag) must survive a clean restart:
+		// compaction eligibility and the choice of the segment to append to depend on it
+		var ids []uint16
+		var metas []segmentMeta
+		for _, seg := range db.datalog.segments {
+			if seg != nil {
+				ids = append(ids, seg.id)
+				metas = append(metas, *seg.meta)
+			}
+		}
 		vAssert(db.Close() == nil, tag+".close.err")
 		ndb, err := Open(dir, opts)
+		if err == nil {
+			for i, id := range ids {
+				seg := ndb.datalog.segments[id]
+				vExpect(seg != nil, tag+".reopen.segment-still-there")
+				if seg != nil {
+					vExpect(*seg.meta == metas[i], tag+".reopen.segment-metadata-preserved")
+				}
+			}
+		}
 		vAssert(err == nil, tag+".reopen.err")
 		if err == nil {
 			*pdb = ndb
